@@ -117,6 +117,8 @@ func (h *historyBuffer) ResetWithIndex(index uint64) {
 	h.head = 0
 	h.tail = 0
 	h.flushCount = defaultFlushCount
+	// persist the adopted index, otherwise a restart could fall back by more than the flush interval
+	h.persist()
 }
 
 func (h *historyBuffer) GetNextIndex() uint64 {
